@@ -597,8 +597,12 @@ pub fn build(prog: &Program) -> Result<Built, Infeasible> {
     }
     // ---- frame sizes, stack pointers
     let mut size: Vec<u64> = prog.frames.iter().map(|f| f.1).collect();
+    // The thread's entry frame may have nothing of its own in the captured memory: when the outermost frame is
+    // one that only scanning could leave (no symbols drive it) and it was reached through a frame pointer, odd
+    // styles end the captured stack exactly at its stack pointer (one past the last captured byte).
+    let bare_entry = d >= 2 && prog.style % 2 == 1 && tech(d - 1) == Tech::Scan && tech(d - 2) == Tech::Fp && matches!(a, Arch::Arm64 | Arch::Arm64Old | Arch::X86 | Arch::Arm);
     for i in 0..d {
-        if tech(i) == Tech::Leaf {
+        if tech(i) == Tech::Leaf || (bare_entry && i == d - 1) {
             size[i] = 0;
         } else if size[i] < 6 {
             return Err("frame too small for the uniform layout");
@@ -613,7 +617,8 @@ pub fn build(prog: &Program) -> Result<Built, Infeasible> {
     for i in 0..d {
         sp.push(sp[i] + size[i] * p);
     }
-    let total_words = LEAD_WORDS + size.iter().sum::<u64>() + TAIL_WORDS;
+    let tail_words = if bare_entry { 0 } else { TAIL_WORDS };
+    let total_words = LEAD_WORDS + size.iter().sum::<u64>() + tail_words;
     let dummy = sp[d] + 2 * p; // readable, zero-filled area past the outermost frame
     // value a function leaves in the frame-pointer register when it uses it as a scratch register,
     // chosen so that the frame-pointer technique fails on it as the walker sources document
@@ -660,7 +665,7 @@ pub fn build(prog: &Program) -> Result<Built, Infeasible> {
     let widx = |addr: u64| ((addr - stack_base) / p) as usize;
     let tag = |i: usize, val: u64| if st[i].pac && val != 0 { val | PAC_BITS } else { val };
     for i in 0..d {
-        if tech(i) == Tech::Leaf {
+        if tech(i) == Tech::Leaf || size[i] == 0 {
             continue;
         }
         let top = widx(sp[i + 1]);
